@@ -36,8 +36,9 @@ TRUSTED = ["hand-written Gallina model coq/Model/InterpSig.v + coq/Model/Interp.
            "(C05/C07), coq/Model/Tx.v / Script.v (C01/C02), coq/Model/HashApi.v (C13)",
            "the run executes the BigZ instance of the curve (fast_prims); Proofs/InterpSigRefine.v, Secp256k1Refine.v, EcdsaRefine.v: call by call "
            "equal to the Z instance the theorems are about (these refinement lemmas depend on the stdlib Uint63 axioms; not pinned)",
-           "the concrete secp256k1 formulas are tied to k256 by correspondence, not proved to form a group (hypothesis secp256k1_group of the "
-           "_partial theorems)",
+           "the concrete secp256k1 formulas are tied to k256 by correspondence; of the group structure, associativity of padd and "
+           "the two scalar-action laws are not proved (hypothesis secp256k1_group of the _partial theorems); closure of padd/pneg/smul, commutativity, "
+           "inverses, lift_x, exact order of G, primality of p and n are proved (Proofs/SecpGroupPartial.v, Proofs/SecpPrimes.v)",
            "the specification column parses the transaction with coq/Model/Tx.v (property C01) and reads both scripts from their bytes with the "
            "independent tokenizer; its verdict function is proved to be met by the model (C15_spend_meets_spec)"]
 ASSUMPTIONS = ["'any change to a signed field makes it reject' is cryptographic (second preimages / forgery): proved is 'accept iff ECDSA-valid on "
